@@ -20,129 +20,129 @@ theorem cnt_w64 : Nat.toUInt64 64 = 64 := rfl
 /-- bitCount<UInt8>: the SWAR ladder returns the number of set bits -/
 theorem bitCount_U8_ok (v : UInt8) : bitCount_U8 v = Spec.bitCount 8 v.toUInt64 := by
   simp only [bitCount_I8, bitCount_U8, bcStep8, Spec.bitCount, countFrom, bit]
-  bv_decide
+  bv_decide (config := { timeout := 180 })
 
 /-- findLSB<UInt8>: position of the lowest set bit, -1 for 0 -/
 theorem findLSB_U8_ok (v : UInt8) : findLSB_U8 v = Spec.findLSB 8 v.toUInt64 := by
   simp only [findLSB_U8, bitCount_I32, bitCount_U32, bcStep32, Spec.findLSB, lowestFrom, bit]
-  bv_decide
+  bv_decide (config := { timeout := 180 })
 
 /-- findMSB<UInt8>: position of the highest set bit, -1 for 0 -/
 theorem findMSB_U8_ok (v : UInt8) : findMSB_U8 v = Spec.findMSB false 8 v.toUInt64 := by
   simp only [findMSB_U8, findMSBvec_U8, msbStepU8, bitCount_I8, bitCount_U8, bcStep8, Spec.findMSB, highestBelow, bit, cnt_w8, cnt_w16, cnt_w32, cnt_w64,
     Bool.true_and, Bool.false_and]
-  bv_decide
+  bv_decide (config := { timeout := 180 })
 
 /-- bitCount<Int8>: the SWAR ladder returns the number of set bits -/
 theorem bitCount_I8_ok (v : Int8) : bitCount_I8 v = Spec.bitCount 8 v.toUInt8.toUInt64 := by
   simp only [bitCount_I8, bitCount_U8, bcStep8, Spec.bitCount, countFrom, bit]
-  bv_decide
+  bv_decide (config := { timeout := 180 })
 
 /-- findLSB<Int8>: position of the lowest set bit, -1 for 0 -/
 theorem findLSB_I8_ok (v : Int8) : findLSB_I8 v = Spec.findLSB 8 v.toUInt8.toUInt64 := by
   simp only [findLSB_I8, bitCount_I32, bitCount_U32, bcStep32, Spec.findLSB, lowestFrom, bit]
-  bv_decide
+  bv_decide (config := { timeout := 180 })
 
 /-- findMSB<Int8>: highest set bit of a non-negative value, highest clear bit of a negative one, -1 for 0 and -1 -/
 theorem findMSB_I8_ok (v : Int8) : findMSB_I8 v = Spec.findMSB true 8 v.toUInt8.toUInt64 := by
   simp only [findMSB_I8, findMSBvec_I8, msbStepI8, bitCount_I8, bitCount_U8, bcStep8, Spec.findMSB, highestBelow, bit, cnt_w8, cnt_w16, cnt_w32, cnt_w64,
     Bool.true_and, Bool.false_and]
-  bv_decide
+  bv_decide (config := { timeout := 180 })
 
 /-- bitCount<UInt16>: the SWAR ladder returns the number of set bits -/
 theorem bitCount_U16_ok (v : UInt16) : bitCount_U16 v = Spec.bitCount 16 v.toUInt64 := by
   simp only [bitCount_I16, bitCount_U16, bcStep16, Spec.bitCount, countFrom, bit]
-  bv_decide
+  bv_decide (config := { timeout := 180 })
 
 /-- findLSB<UInt16>: position of the lowest set bit, -1 for 0 -/
 theorem findLSB_U16_ok (v : UInt16) : findLSB_U16 v = Spec.findLSB 16 v.toUInt64 := by
   simp only [findLSB_U16, bitCount_I32, bitCount_U32, bcStep32, Spec.findLSB, lowestFrom, bit]
-  bv_decide
+  bv_decide (config := { timeout := 180 })
 
 /-- findMSB<UInt16>: position of the highest set bit, -1 for 0 -/
 theorem findMSB_U16_ok (v : UInt16) : findMSB_U16 v = Spec.findMSB false 16 v.toUInt64 := by
   simp only [findMSB_U16, findMSBvec_U16, msbStepU16, bitCount_I16, bitCount_U16, bcStep16, Spec.findMSB, highestBelow, bit, cnt_w8, cnt_w16, cnt_w32, cnt_w64,
     Bool.true_and, Bool.false_and]
-  bv_decide
+  bv_decide (config := { timeout := 180 })
 
 /-- bitCount<Int16>: the SWAR ladder returns the number of set bits -/
 theorem bitCount_I16_ok (v : Int16) : bitCount_I16 v = Spec.bitCount 16 v.toUInt16.toUInt64 := by
   simp only [bitCount_I16, bitCount_U16, bcStep16, Spec.bitCount, countFrom, bit]
-  bv_decide
+  bv_decide (config := { timeout := 180 })
 
 /-- findLSB<Int16>: position of the lowest set bit, -1 for 0 -/
 theorem findLSB_I16_ok (v : Int16) : findLSB_I16 v = Spec.findLSB 16 v.toUInt16.toUInt64 := by
   simp only [findLSB_I16, bitCount_I32, bitCount_U32, bcStep32, Spec.findLSB, lowestFrom, bit]
-  bv_decide
+  bv_decide (config := { timeout := 180 })
 
 /-- findMSB<Int16>: highest set bit of a non-negative value, highest clear bit of a negative one, -1 for 0 and -1 -/
 theorem findMSB_I16_ok (v : Int16) : findMSB_I16 v = Spec.findMSB true 16 v.toUInt16.toUInt64 := by
   simp only [findMSB_I16, findMSBvec_I16, msbStepI16, bitCount_I16, bitCount_U16, bcStep16, Spec.findMSB, highestBelow, bit, cnt_w8, cnt_w16, cnt_w32, cnt_w64,
     Bool.true_and, Bool.false_and]
-  bv_decide
+  bv_decide (config := { timeout := 180 })
 
 /-- bitCount<UInt32>: the SWAR ladder returns the number of set bits -/
 theorem bitCount_U32_ok (v : UInt32) : bitCount_U32 v = Spec.bitCount 32 v.toUInt64 := by
   simp only [bitCount_I32, bitCount_U32, bcStep32, Spec.bitCount, countFrom, bit]
-  bv_decide
+  bv_decide (config := { timeout := 180 })
 
 /-- findLSB<UInt32>: position of the lowest set bit, -1 for 0 -/
 theorem findLSB_U32_ok (v : UInt32) : findLSB_U32 v = Spec.findLSB 32 v.toUInt64 := by
   simp only [findLSB_U32, bitCount_I32, bitCount_U32, bcStep32, Spec.findLSB, lowestFrom, bit]
-  bv_decide
+  bv_decide (config := { timeout := 180 })
 
 /-- findMSB<UInt32>: position of the highest set bit, -1 for 0 -/
 theorem findMSB_U32_ok (v : UInt32) : findMSB_U32 v = Spec.findMSB false 32 v.toUInt64 := by
   simp only [findMSB_U32, findMSBvec_U32, msbStepU32, bitCount_I32, bitCount_U32, bcStep32, Spec.findMSB, highestBelow, bit, cnt_w8, cnt_w16, cnt_w32, cnt_w64,
     Bool.true_and, Bool.false_and]
-  bv_decide
+  bv_decide (config := { timeout := 180 })
 
 /-- bitCount<Int32>: the SWAR ladder returns the number of set bits -/
 theorem bitCount_I32_ok (v : Int32) : bitCount_I32 v = Spec.bitCount 32 v.toUInt32.toUInt64 := by
   simp only [bitCount_I32, bitCount_U32, bcStep32, Spec.bitCount, countFrom, bit]
-  bv_decide
+  bv_decide (config := { timeout := 180 })
 
 /-- findLSB<Int32>: position of the lowest set bit, -1 for 0 -/
 theorem findLSB_I32_ok (v : Int32) : findLSB_I32 v = Spec.findLSB 32 v.toUInt32.toUInt64 := by
   simp only [findLSB_I32, bitCount_I32, bitCount_U32, bcStep32, Spec.findLSB, lowestFrom, bit]
-  bv_decide
+  bv_decide (config := { timeout := 180 })
 
 /-- findMSB<Int32>: highest set bit of a non-negative value, highest clear bit of a negative one, -1 for 0 and -1 -/
 theorem findMSB_I32_ok (v : Int32) : findMSB_I32 v = Spec.findMSB true 32 v.toUInt32.toUInt64 := by
   simp only [findMSB_I32, findMSBvec_I32, msbStepI32, bitCount_I32, bitCount_U32, bcStep32, Spec.findMSB, highestBelow, bit, cnt_w8, cnt_w16, cnt_w32, cnt_w64,
     Bool.true_and, Bool.false_and]
-  bv_decide
+  bv_decide (config := { timeout := 180 })
 
 /-- bitCount<UInt64>: the SWAR ladder returns the number of set bits -/
 theorem bitCount_U64_ok (v : UInt64) : bitCount_U64 v = Spec.bitCount 64 v := by
   simp only [bitCount_I64, bitCount_U64, bcStep64, Spec.bitCount, countFrom, bit]
-  bv_decide
+  bv_decide (config := { timeout := 180 })
 
 /-- findLSB<UInt64>: position of the lowest set bit, -1 for 0 -/
 theorem findLSB_U64_ok (v : UInt64) : findLSB_U64 v = Spec.findLSB 64 v := by
   simp only [findLSB_U64, bitCount_I64, bitCount_U64, bcStep64, Spec.findLSB, lowestFrom, bit]
-  bv_decide
+  bv_decide (config := { timeout := 180 })
 
 /-- findMSB<UInt64>: position of the highest set bit, -1 for 0 -/
 theorem findMSB_U64_ok (v : UInt64) : findMSB_U64 v = Spec.findMSB false 64 v := by
   simp only [findMSB_U64, findMSBvec_U64, msbStepU64, bitCount_I64, bitCount_U64, bcStep64, Spec.findMSB, highestBelow, bit, cnt_w8, cnt_w16, cnt_w32, cnt_w64,
     Bool.true_and, Bool.false_and]
-  bv_decide
+  bv_decide (config := { timeout := 180 })
 
 /-- bitCount<Int64>: the SWAR ladder returns the number of set bits -/
 theorem bitCount_I64_ok (v : Int64) : bitCount_I64 v = Spec.bitCount 64 v.toUInt64 := by
   simp only [bitCount_I64, bitCount_U64, bcStep64, Spec.bitCount, countFrom, bit]
-  bv_decide
+  bv_decide (config := { timeout := 180 })
 
 /-- findLSB<Int64>: position of the lowest set bit, -1 for 0 -/
 theorem findLSB_I64_ok (v : Int64) : findLSB_I64 v = Spec.findLSB 64 v.toUInt64 := by
   simp only [findLSB_I64, bitCount_I64, bitCount_U64, bcStep64, Spec.findLSB, lowestFrom, bit]
-  bv_decide
+  bv_decide (config := { timeout := 180 })
 
 /-- findMSB<Int64>: highest set bit of a non-negative value, highest clear bit of a negative one, -1 for 0 and -1 -/
 theorem findMSB_I64_ok (v : Int64) : findMSB_I64 v = Spec.findMSB true 64 v.toUInt64 := by
   simp only [findMSB_I64, findMSBvec_I64, msbStepI64, bitCount_I64, bitCount_U64, bcStep64, Spec.findMSB, highestBelow, bit, cnt_w8, cnt_w16, cnt_w32, cnt_w64,
     Bool.true_and, Bool.false_and]
-  bv_decide
+  bv_decide (config := { timeout := 180 })
 
 end GlmVerif.C05
